@@ -82,6 +82,27 @@ PROPS = {
             "multi-subject clauses with alternatives (`a, b | c, d`) are generated only when GenCfg.multi_alt is on (see known findings)",
         ],
     },
+    "C09": {
+        "bin": "m_types",
+        "build": BUILD_VH,
+        "level": "exploration",
+        "budget": {"quick": 20, "thorough": 600},
+        "timeout": {"quick": 1200, "thorough": 10800},
+        "death_is_violation": False,
+        "rule": ("workspaces of 1-3 modules from the type-directed generator (vh::tgen): every expression is generated FOR a chosen monomorphic type from a typed environment, so each binder's type is "
+                 "known by construction; hover is asked at the declaration of every parameter, let variable, pattern variable (let, case with 1-2 subjects, list/tuple/constructor/string-prefix/as), "
+                 "use binder, lambda parameter and function, and the displayed type must equal the constructed one. Ten polymorphic helpers with hand-written most-general signatures (incl. a mutually "
+                 "recursive pair) are spliced into every module in random order with randomly chosen binder names (sometimes spelled like a top-level function) and compared up to bijective renaming "
+                 "of type variables. Non-trivial = every workspace (all contain generic instantiation); distinct by FNV-1a of the expected types; evaluations = hover comparisons."),
+        "assumptions": [
+            "well-typed Gleam only, and only constructs whose PRINCIPAL type is the constructed type: no empty list literals, no lone Ok/Error (both sides pinned by a two-armed case or a helper), no constructor that leaves a type parameter open",
+            "unlabelled parameters/fields precede labelled ones; `..` in constructor patterns only when a field is actually omitted (both are errors in Gleam otherwise)",
+            "a function without return annotation only calls same-module functions whose type is already settled (annotated, or earlier and unannotated): no inference cycle through un-annotated returns",
+            "unannotated parameters are forced by an operator in the first statement; lambda parameters are forced by a witness list `[param, witness]` or by the callee (poly_apply / use)",
+            "known gaps kept out of the generator (baseline tests infer_annotated_let / infer_annotated_lambda fail on the pinned tree): annotations on let and on lambda parameters",
+            "types are compared as glas prints them (aliases expanded, module qualifiers dropped)",
+        ],
+    },
     "C10": {
         "bin": "m_robust",
         "build": BUILD_VH,
